@@ -134,6 +134,7 @@ fn run(args: &[String]) -> Result<i32, String> {
                                         "ops" => ops::replay_case(case, &mut rep),
                                         "prog" => scenario::replay_prog(case, &mut rep),
                                         "scenario" => scenario::replay_scenario(case, &mut rep),
+                                        "session" => scenario::replay_session(case, &mut rep),
                                         "parse" => parse::replay_parse(case, &mut rep),
                                         "ser" => ser::replay_ser(case, &mut rep),
                                         "conv" => conv::replay_conv(case, &mut rep),
